@@ -665,6 +665,8 @@ class Tr:
                 return ("adt", mod, name, [a[1] if a[0] == "expr" else a for a in args])
             if name == "Vec" and len(args) == 2:
                 return ("hvec", self.rtype(args[0], selfty), args[1])
+            if name in ("Value7", "Channel", "Control", "Program"):     # midi_types newtypes over u8 (`u8::from(x)` is the value)
+                return "u8"
             return ("ext", name, args)
         raise Unsupported(f"type {t}")
 
@@ -910,8 +912,12 @@ class Tr:
         self.out.append("")
 
 
+# midi_types::MidiMessage constructors the crate matches on -> (model constructor, payload kinds)
+MIDI_MSG = {"NoteOn": ("noteOn", ["u8", "u8", "u8"]), "NoteOff": ("noteOff", ["u8", "u8", "u8"]),
+            "PitchBendChange": ("pitchBend", ["u8", "value14"]), "ControlChange": ("controlChange", ["u8", "u8", "u8"])}
+
 # external (dependency-crate) types -> Lean types of the hand-written dependency models (SynthVerif/Src/Deps.lean)
-EXT_TYPES = {"HistoryBuffer": "HistBuf", "Hertz": "Deps.Hertz", "DirectForm1": "Deps.DirectForm1", "Coefficients": "Deps.Coefficients"}
+EXT_TYPES = {"MidiByteStreamParser": "ParserState", "MidiMessage": "MidiMsg", "HistoryBuffer": "HistBuf", "Hertz": "Deps.Hertz", "DirectForm1": "Deps.DirectForm1", "Coefficients": "Deps.Coefficients"}
 
 def frac_of_literal(body):
     b = body.replace("_", "")
@@ -1116,14 +1122,32 @@ class Ctx:
                 first = False
             return out
         out = list(sl)
+        wild = None
         if any(g is not None for _, g, _ in arms):
-            raise Unsupported("match guard")
+            # guards: supported when every guarded arm has its own head constructor and the match ends in an unguarded `_`
+            # arm -- a failing guard then falls through to that arm, exactly as in Rust
+            last = arms[-1]
+            if last[0][0] != "pwild" or last[1] is not None:
+                raise Unsupported("match guard without a final `_` arm")
+            heads = [str(a[0]) for a in arms[:-1]]
+            def head(p):
+                while p[0] == "pctor" and p[1][-1] == "Some": p = p[2][0]
+                return p[1][-1] if p[0] in ("pctor", "ppath") else None
+            hs = [head(a[0]) for a in arms[:-1]]
+            if None in hs or len(set(hs)) != len(hs):
+                raise Unsupported("match guards on overlapping patterns")
+            wild = last[2]
         out.append(f"match {sa} with")
         for pat, guard, body in arms:
             self.env.append({})
             ptxt = self.pat(pat, st)
             out.append(f"| {ptxt} =>")
-            out += ["  " + l for l in self.arm(body, tail)]
+            if guard is not None:
+                gl, ga, _ = self.expr(guard, "bool")
+                out += ["  " + l for l in gl] + [f"  if {ga} then"] + ["    " + l for l in self.arm(body, tail)]
+                out += ["  else"] + ["    " + l for l in self.arm(wild, tail)]
+            else:
+                out += ["  " + l for l in self.arm(body, tail)]
             self.env.pop()
         return out
 
@@ -1152,7 +1176,8 @@ class Ctx:
         if p[0] == "pctor":
             ctor = p[1][-1]
             if t[0] == "option" and ctor == "Some":
-                return f"some {self.pat(p[2][0], t[1])}"
+                sub = self.pat(p[2][0], t[1])
+                return f"some ({sub})" if " " in sub else f"some {sub}"
             if t[0] == "adt":
                 mod = t[1]
                 en = self.tr.crate.mods[mod]["enums"].get(t[2])
@@ -1160,6 +1185,23 @@ class Ctx:
                     payload = dict(en[2])[ctor]
                     subs = [self.pat(sp, self.tr.rtype(pt)) for sp, pt in zip(p[2], payload)]
                     return "." + lean_ident(ctor) + "".join(" " + s for s in subs)
+            if ext_name(t) == "MidiMessage" and ctor in MIDI_MSG:
+                lname, payload = MIDI_MSG[ctor]
+                subs = []
+                for sp, pt in zip(p[2], payload):
+                    if pt == "value14":
+                        # the model carries a 14-bit value as its two data bytes (msb, lsb)
+                        if sp[0] == "pwild": subs += ["_", "_"]
+                        elif sp[0] == "ppath" and self.is_binding(sp):
+                            v = sp[1][0]
+                            self.bind(v, ("ext", "Value14", []), False)
+                            self.alias = getattr(self, "alias", {})
+                            self.alias[v] = f"({lean_ident(v)}_msb, {lean_ident(v)}_lsb)"
+                            subs += [f"{lean_ident(v)}_msb", f"{lean_ident(v)}_lsb"]
+                        else: raise Unsupported("pattern inside Value14")
+                    else:
+                        subs.append(self.pat(sp, "u8"))
+                return "." + lname + "".join(" " + x for x in subs)
             raise Unsupported(f"constructor pattern {ctor}")
         if p[0] == "ptuple":
             return "(" + ", ".join(self.pat(sp, tt) for sp, tt in zip(p[1], t[1])) + ")"
@@ -1282,7 +1324,7 @@ class Ctx:
                 return [], n, "bool"
             v = self.lookup(n)
             if v is not None:
-                return [], lean_ident(n), v[0]
+                return [], getattr(self, "alias", {}).get(n, lean_ident(n)), v[0]
             if n in self.generics:
                 return [], n, getattr(self.tr, "cur_generic_types", {}).get(n, "u32")
             mod, it = self.tr.find("consts", n)
@@ -1362,6 +1404,9 @@ class Ctx:
                     return lines, f"({la} {lop} {ra})", "bool"
                 return lines, f"(decide ({la} {lop} {ra}))", "bool"
             raise Unsupported(f"comparison on {tname(lt)}")
+        if lt == "bool" and op in ("|", "&", "^"):
+            bop = {"|": "||", "&": "&&", "^": "!="}[op]
+            return lines, f"({la} {bop} {ra})", "bool"
         if lt == "f32":
             if op not in self.FOPS: raise Unsupported(f"float operator {op}")
             return lines, f"({self.FOPS[op]} {la} {ra})", "f32"
@@ -1518,6 +1563,8 @@ class Ctx:
 
     def conv(self, atom, src, dst):
         """`From`/`Into` conversion src -> dst through an impl in the crate (or the dependency model)"""
+        if src == dst:
+            return [], atom
         for mod, d in self.tr.crate.mods.items():
             for (tn, mname), (it, gs, trait) in d["methods"].items():
                 if trait is None or tname(trait) != "From" or it[1] != "from": continue
@@ -1620,6 +1667,8 @@ def deps_call(ctx, tn, fn, args, targs, exp):
         if targs and len(targs) == 2:
             return [], "[]", ("hvec", ctx.tr.rtype(targs[0]), targs[1][1] if targs[1][0] == "expr" else targs[1])
         raise Unsupported("Vec::new() of unknown capacity")
+    if tn == "MidiByteStreamParser" and fn == "new":
+        return [], "ParserState.idle", ("ext", "MidiByteStreamParser", [])
     if tn == "HistoryBuffer" and fn == "new":
         if ext_name(exp) == "HistoryBuffer":
             cap = exp[2][1]
@@ -1640,6 +1689,10 @@ def deps_call(ctx, tn, fn, args, targs, exp):
     return None
 
 def deps_conv(ctx, atom, src, dst):
+    if src == dst:
+        return [], atom
+    if ext_name(src) == "Value14" and dst == "f32":
+        return [], f"(value14ToF32 {atom}.1 {atom}.2)"
     return None
 
 def deps_mcall(ctx, recv, name, args, targs, exp):
@@ -1649,6 +1702,31 @@ def deps_mcall(ctx, recv, name, args, targs, exp):
         if ext_name(bt) != "HistoryBuffer": return None
         nl, na, _ = ctx.expr(recv[3][0], "usize")
         return bl + nl, f"(Deps.fsum ((HistBuf.oldestOrdered {ba}).take {na}))", "f32"
+    if name == "parse" and len(args) == 1:
+        try:
+            root, path, t = ctx.place(recv)
+        except Unsupported:
+            return None
+        if ext_name(t) == "MidiByteStreamParser":
+            if getattr(ctx, "inner", False): raise Unsupported("mutating call inside an expression-position if/match")
+            al, aa, _ = ctx.expr(args[0], "u8")
+            cur = ".".join([lean_ident(root)] + path)
+            t1, t2 = ctx.fresh(), ctx.fresh()
+            return al + [f"let ({t1}, {t2}) := parserStep {cur} {aa}"] + ctx.store(root, path, t1), t2, ("option", ("ext", "MidiMessage", []))
+    if name == "unwrap_or" and len(args) == 1:
+        rl, ra, rt = ctx.expr(recv, None)
+        if isinstance(rt, tuple) and rt[0] == "option":
+            al, aa, _ = ctx.expr(args[0], rt[1])
+            return rl + al, f"(({ra}).getD {aa})", rt[1]
+        return None
+    if name == "last" and not args:
+        rl, ra, rt = ctx.expr(recv, None)
+        if isinstance(rt, tuple) and rt[0] in ("hvec", "slice", "array"):
+            return rl, f"({ra}.getLast?)", ("option", rt[1])
+    if name in ("max", "min") and not args:
+        rl, ra, rt = ctx.expr(recv, None)      # `.iter()` is transparent
+        if isinstance(rt, tuple) and rt[0] in ("hvec", "slice", "array") and is_int(rt[1]):
+            return rl, f"(Deps.iter{name.capitalize()} {ra})", ("option", rt[1])
     if name == "unwrap" and not args:
         rl, ra, rt = ctx.expr(recv, None)
         if isinstance(rt, tuple) and rt[0] in ("result", "option"):
@@ -1685,6 +1763,17 @@ def deps_mcall_stmt(ctx, root, path, t, name, args):
         al, aa, _ = ctx.expr(args[0], t[1])
         cap = ctx.tr.const_arg(t[2])
         return al + ctx.store(root, path, f"(hvPush {cap} {cur} {aa})")
+    if isinstance(t, tuple) and t[0] == "hvec" and name == "clear" and not args:
+        return ctx.store(root, path, "[]")
+    if isinstance(t, tuple) and t[0] == "hvec" and name == "retain" and len(args) == 1 and args[0][0] == "closure":
+        cl = args[0]
+        if len(cl[1]) != 1 or cl[1][0][0] != "ppath": raise Unsupported("retain with a pattern closure")
+        v = cl[1][0][1][0]
+        ctx.env.append({v: (t[1], False)})
+        bl, ba, _ = ctx.expr(cl[2], "bool")
+        ctx.env.pop()
+        if bl: raise Unsupported("retain closure with checked arithmetic")
+        return ctx.store(root, path, f"({cur}.filter fun {lean_ident(v)} => {ba})")
     if ext_name(t) == "HistoryBuffer" and name == "write":
         al, aa, _ = ctx.expr(args[0], "f32")
         return al + ctx.store(root, path, f"(HistBuf.write {cur} {aa})")
@@ -1710,7 +1799,7 @@ def for_each_rewrite(e):
 
 # ---------------------------------------------------------------------------------------------------------------------
 
-MODULES = ["utils", "phase_accumulator", "lfo", "adsr", "quantizer", "ribbon_controller", "glide_processor"]
+MODULES = ["utils", "phase_accumulator", "lfo", "adsr", "quantizer", "ribbon_controller", "glide_processor", "mono_midi_receiver"]
 
 def main():
     src = sys.argv[1] if len(sys.argv) > 1 else "/repo/src"
